@@ -491,7 +491,7 @@ func runInstance(ld *Loaded, h HarnessSpec, ts TierSpec, args []int, opt *Option
 				}
 			}()
 			if opt.Cross && q.Verdict == "unsat" && kind != "reach" {
-				q.Cross = crossCheck(e, g, qms, q.Verdict)
+				q.Cross = crossCheck(e, g, qms, q.Verdict, opt.CrossCvc5)
 			}
 		}
 		q.Ms = time.Since(t1).Milliseconds()
@@ -559,10 +559,10 @@ func runInstance(ld *Loaded, h HarnessSpec, ts TierSpec, args []int, opt *Option
 }
 
 // crossCheck re-decides g on the other installed solvers; returns "" when they agree
-func crossCheck(e *Engine, g *Term, qms int, want string) string {
+func crossCheck(e *Engine, g *Term, qms int, want string, withCvc5 bool) string {
 	var notes []string
 	for _, kind := range []string{"z3-new", "cvc5"} {
-		if kind == e.sol.kind {
+		if kind == e.sol.kind || (kind == "cvc5" && !withCvc5) {
 			continue
 		}
 		func() {
@@ -571,6 +571,10 @@ func crossCheck(e *Engine, g *Term, qms int, want string) string {
 					notes = append(notes, kind+":error")
 				}
 			}()
+			// a second opinion is worth two minutes at most; beyond that the note says "unknown"
+			if qms > 120000 {
+				qms = 120000
+			}
 			s := NewSolver(kind, e.TB, qms, e.logic)
 			defer s.Close()
 			for _, l := range e.ufLemmas { // refinement lemmas (true facts about the real functions)
@@ -596,6 +600,7 @@ type Options struct {
 	Trace  bool
 	SmtLog string
 	Cross  bool
+	CrossCvc5 bool
 	Sites  bool
 	J      int
 }
@@ -700,7 +705,7 @@ func cmdRun(argv []string) {
 			cv = append(cv, n)
 		}
 	}
-	opt := &Options{Solver: *solver, Trace: *trace, SmtLog: *smtlog, Cross: *cross, Sites: os.Getenv("GOSYM_SITES") != ""}
+	opt := &Options{Solver: *solver, Trace: *trace, SmtLog: *smtlog, Cross: *cross, CrossCvc5: *cross, Sites: os.Getenv("GOSYM_SITES") != ""}
 	res, e := runInstance(ld, hs[0], hs[0].Tiers[*tier], args, opt, cv)
 	fmt.Printf("load %.1fs | %s %v: %s %s\n", ld.tLoad.Seconds(), res.Harness, res.Args, res.Status, res.Msg)
 	fmt.Printf("exec %dms solver %dms | terms %d visits %d merges %d forks %d feas-calls %d cache-hits %d inputs %d\n",
